@@ -506,6 +506,26 @@ func checkParseTargetPort(c *Ctx) {
 			ok = b.loK && b.hiK && b.lo >= 1 && b.hi <= 65535
 			detail = fmt.Sprintf("port %s bounded to [%g,%g]", pt.String(), b.lo, b.hi)
 		}
+		// an address-port parsed by the library (its port is a uint16, so at most 65535) whose port this path tested to be non-zero
+		if !ok && r0.Op == "extract" && r0.Name == "0" && len(r0.Args) == 1 && r0.Args[0].Op == "call" && r0.Args[0].Name == "netip.ParseAddrPort" {
+			for _, a := range rp.Atoms {
+				nn := a.Norm()
+				t := nn.Cond
+				if t.Op != "binop" || len(t.Args) != 2 {
+					continue
+				}
+				l, r := t.Args[0].StripConv(), t.Args[1]
+				if l.Op != "call" || l.Name != "(netip.AddrPort).Port" || len(l.Args) != 1 || l.Args[0].String() != r0.String() {
+					continue
+				}
+				nz := r.IsConst("0") && (t.Name == "!=" && nn.Sign || t.Name == "==" && !nn.Sign || t.Name == ">" && nn.Sign || t.Name == "<=" && !nn.Sign) ||
+					r.IsConst("1") && (t.Name == ">=" && nn.Sign || t.Name == "<" && !nn.Sign)
+				if nz {
+					ok = true
+					detail = "port of netip.ParseAddrPort's result (a uint16) tested to be non-zero"
+				}
+			}
+		}
 		if !ok && seen[key] {
 			continue
 		}
